@@ -15,7 +15,7 @@ COQ_TARGETS = ["Props/C01.vo", "Props/C01w5.vo", "Model/C01Harness.vo", "Model/C
 THEOREM_FILES = ["Props/C01.v", "Props/C01w5.v"]
 COQ_IMPORTS = ("From Coq Require Import List ZArith Bool.\n"
                "From PV Require Import Base.Index Base.Perm Np.Array Model.Sparse Model.Repr Model.Harness Model.C07Ops Model.C07Harness "
-               "Model.C01Conv Model.C01Unique Model.C01Coo Model.C01W3 Model.C01W4 Model.C01Harness Model.C01W5 Model.C01W5H.\n")
+               "Model.C01Conv Model.C01Unique Model.C01Coo Model.C01W3 Model.C01W4 Model.C01Harness Model.C01W5 Model.C01W5Sum Model.C01W5H.\n")
 RULE = ("dense<->sparse: all shapes with <= 8 cells (exhaustive) + seeded random shapes <= 5 modes / 96 cells; sparsity {0,1,some,all}; stored "
         "orders {sorted,reversed,random}; non-trivial = more than one cell and at least one nonzero; distinct = distinct (op,args); "
         "matricisation: every ordered partition of the modes into (rdims, cdims) for N<=4 (either side may be empty) + seeded sample "
@@ -57,17 +57,18 @@ CORRESPONDENCE_ONLY = [
     "copy=False of tensor / sptensor / ktensor / ttensor / sumtensor / tenmat / sptenmat): the Coq arrays are abstract F-order lists of "
     "ring elements, so `the conversion denotes the same array whatever layout / element type / copy flag its operand was built with` "
     "is compared on generated inputs only (fourth-wave stream props/c01_w4.py re-runs every op with these options)",
-    "sumtensor histories: a second conversion of the same sumtensor and the state of the parts afterwards are observed, not modelled "
-    "(the single conversion as executed is proved: C01_sum_impl)",
+    "sumtensor: that a conversion leaves the part OBJECTS (and an earlier result) unchanged is observed (second conversion, parts and "
+    "the user's own objects re-read after full()), not modelled — the Coq model is functional, aliasing is C05's ground; the "
+    "histories + part / + [parts] / unary minus / copy followed by the conversion as executed ARE proved (C01_sum_history)",
     "scipy's sparse-sparse product inside sptensor.ttm with a coo matrix (`Xnt.double().dot(U.T)`): a PARAMETER of the model constrained "
     "by spdot_spec (well-formed coo matrix of the right shape denoting the matrix product); the theorems hold for every such function, "
     "the generated cases are evaluated with spdot_ref; coo @ ndarray inside tensor.ttm is modelled as the product with toarray()",
     "the container (tensor / sptensor) sptensor.ttm answers with for a coo matrix depends on how many entries scipy's product STORES: "
     "the theorems cover both containers, the generated cases compare the densified result and the well-formedness of a sparse one, "
     "not which container was chosen",
-    "the reordering of (modes, matrices) by tt_dimscheck in front of the ttm loop is applied by the harness (sorted by mode); the "
-    "request resolution over the GENERATED tt_dimscheck is C02's theorem C02_dimscheck_align, the loop on the delivered pairs is "
-    "C01_ttm_mode_list",
+    "the generated ttm_list cases hand the model the (mode, matrix) pairs sorted by mode (the harness applies tt_dimscheck's "
+    "reordering); that the GENERATED tt_dimscheck delivers exactly these pairs for every admissible request is proved "
+    "(C01_ttm_as_called, through C02's alignment lemma)",
     "min_split_dims inside ktensor.full is a nested function the translator does not reach: hand transliteration; its value is "
     "immaterial beyond lying in 1 .. N-1 (C01_kruskal_any_split, and C01_kruskal_generated_any_split over the GENERATED khatrirao)",
 ]
